@@ -230,6 +230,12 @@ def path_fn_for(tmpl, aspects, assume=None, ref_prog=None):
                     d0 = compare_pieces(s, outp, outcome[2])
                     if d0 is not None and d0[0] == 'diff':
                         obs['violations'].append({'aspect': 'stdout', 'what': 'a failing print left a fragment on stdout: %r, completed prints %r' % (eval_pieces(d0[1], outp)[:160], eval_pieces(d0[1], outcome[2])[:160]), 'wit': wit_of(d0[1]), 'ref': 'unspecified-print'})
+                if obs['real'] == 'ok' and code == 103 and 'format' in aspects:
+                    # whatever the reference leaves open: a failure is reported as one located diagnostic
+                    first, _rest = split_pieces_first_line(normalise(errp))
+                    flat = b''.join(p if isinstance(p, bytes) else b'\x00' for p in first)
+                    if not DIAG_RE.match(flat):
+                        obs['violations'].append({'aspect': 'format', 'what': 'first stderr line is not `<path>:<line>:<col>: <message>`: %r' % flat[:160], 'wit': obs['wit'], 'ref': 'unspecified-format'})
                 if obs['real'] == 'hang' and ('budget' in outcome[1] or 'recursion' in outcome[1]):
                     pass        # the program does not terminate under the reference either: not a program the properties speak about
                 elif obs['real'] in ('panic', 'hang') and s is not None:
@@ -289,7 +295,9 @@ def native_run(binary, src, workdir):
     with open(p, 'wb') as f: f.write(src if isinstance(src, bytes) else src.encode())
     try:
         r = subprocess.run([binary, SCRIPT], cwd=workdir, stdout=subprocess.PIPE, stderr=subprocess.PIPE, timeout=20, stdin=subprocess.DEVNULL)
-        return r.returncode, r.stdout, r.stderr
+        # the engine's environment stub answers `<CWD>` for the working directory; the native run echoes the real one
+        wd = os.path.realpath(workdir).encode()
+        return r.returncode, r.stdout, r.stderr.replace(wd, b'<CWD>').replace(os.path.abspath(workdir).encode(), b'<CWD>')
     except subprocess.TimeoutExpired:
         return 'timeout', b'', b''
 
@@ -344,6 +352,8 @@ def confirm_violation(v, src, nat):
     ref = sem.run_concrete(src)
     if ref[0] == 'unspecified' and v.get('ref') == 'unspecified-print':
         return code == 103 and ref[3] is not None and out != ref[3]
+    if ref[0] == 'unspecified' and v.get('ref') == 'unspecified-format':
+        return code == 103 and not DIAG_RE.match(err.split(b'\n')[0])
     if ref[0] == 'unspecified': return False
     if ref[0] == 'syntax': exp_code = 103
     else: exp_code = 0 if ref[0] == 'ok' else 103
